@@ -1495,6 +1495,26 @@ def main(ctx) -> int:
         b, _ = run_sem_batch(ctx, shipped_db(), 'shipped',
                              gen_sem_cases(ctx.rng, info, ctx.scale(quick=150, thorough=5000)))
         bad += b
+        # the same kind of queries with the PROCESS time zone away from UTC: start and end dates mean whole UTC days whatever the
+        # zone the process runs in (a query object is a value, not a function of the environment)
+        import os as _os
+        import time as _time
+
+        old_tz = _os.environ.get('TZ')
+        try:
+            for zone in ('America/New_York', 'Asia/Tokyo'):
+                _os.environ['TZ'] = zone
+                _time.tzset()
+                ctx.count('process_time_zone:' + zone)
+                b, _ = run_sem_batch(ctx, shipped_db(), 'shipped',
+                                     gen_sem_cases(ctx.rng, info, ctx.scale(quick=60, thorough=1500)))
+                bad += b
+        finally:
+            if old_tz is None:
+                _os.environ.pop('TZ', None)
+            else:
+                _os.environ['TZ'] = old_tz
+            _time.tzset()
         nd = len(ctx.divergences)
         resolve_text_variants(ctx, [p for _, p in dbs] + [shipped_db()])
         bad += [d['case'] for d in ctx.divergences[nd:]]
